@@ -17,7 +17,7 @@ Open Scope Z_scope.
     delta so far is absent from the cumulative view. *)
 Theorem c08_cumulative_is_running_delta : forall x i h t0 t0' tm tm',
   class_of x = CSyncAdd ->
-  RunningDelta (sync_points h 0 0) (map s_points (stream x i Delta t0 tm h))
+  RunningDelta (sync_points (normalize h []) 0 0) (map s_points (stream x i Delta t0 tm h))
                (map s_points (stream x i Cumulative t0' tm' h)).
 Proof. intros. now apply running_delta. Qed.
 Print Assumptions c08_cumulative_is_running_delta.
@@ -53,9 +53,11 @@ Print Assumptions c08_start_le_time.
     observed in the preceding cycle (zero if not observed then). *)
 Theorem c08_async_cycle_exact : forall x i h t0 t0' tm tm',
   class_of x = CAsyncSum ->
-  AsyncDelta (cycles_async true i h []) (map s_points (stream x i Delta t0 tm h)) /\
-  AsyncCum (cycles_async false i h []) (map s_points (stream x i Cumulative t0' tm' h)).
-Proof. intros. split; [now apply async_delta | now apply async_cum]. Qed.
+  (calm true (normalize h []) = true ->
+     AsyncDelta (cycles_async true i (normalize h []) []) (map s_points (stream x i Delta t0 tm h))) /\
+  (calm false (normalize h []) = true ->
+     AsyncCum (cycles_async false i (normalize h []) []) (map s_points (stream x i Cumulative t0' tm' h))).
+Proof. exact async_exact. Qed.
 Print Assumptions c08_async_cycle_exact.
 
 (** Gauges report the last value recorded in the cycle, for exactly the sets recorded in
@@ -63,11 +65,13 @@ Print Assumptions c08_async_cycle_exact.
     synchronous gauge under a cumulative reader keeps every set and shows its last value so far. *)
 Theorem c08_gauge_last : forall x i h t0 t0' tm tm',
   (class_of x = CSyncGauge ->
-     GaugeCycle (cycles_sync true i h []) (map s_points (stream x i Delta t0 tm h)) /\
-     GaugeSoFar (cycles_sync false i h []) (map s_points (stream x i Cumulative t0' tm' h))) /\
+     GaugeCycle (cycles_sync true i (normalize h []) []) (map s_points (stream x i Delta t0 tm h)) /\
+     GaugeSoFar (cycles_sync false i (normalize h []) []) (map s_points (stream x i Cumulative t0' tm' h))) /\
   (class_of x = CAsyncGauge ->
-     GaugeCycle (cycles_async true i h []) (map s_points (stream x i Delta t0 tm h)) /\
-     GaugeCycle (cycles_async false i h []) (map s_points (stream x i Cumulative t0' tm' h))).
+     (calm true (normalize h []) = true ->
+        GaugeCycle (cycles_async true i (normalize h []) []) (map s_points (stream x i Delta t0 tm h))) /\
+     (calm false (normalize h []) = true ->
+        GaugeCycle (cycles_async false i (normalize h []) []) (map s_points (stream x i Cumulative t0' tm' h)))).
 Proof. exact gauge_last. Qed.
 Print Assumptions c08_gauge_last.
 
@@ -99,7 +103,7 @@ Print Assumptions c08_callback_error_harmless.
     per collection. *)
 Theorem c08_points_canonical : forall x i t t0 tm h,
   AllSorted (stream x i t t0 tm h) /\
-  length (stream x i t t0 tm h) = length (filter (collects (is_delta t)) h).
+  length (stream x i t t0 tm h) = length (filter (collects (is_delta t)) (normalize h [])).
 Proof. exact points_canonical. Qed.
 Print Assumptions c08_points_canonical.
 
@@ -116,9 +120,37 @@ Theorem c08_async_deltas_telescope : forall cycles k n m y,
 Proof. exact async_delta_telescope. Qed.
 Print Assumptions c08_async_deltas_telescope.
 
+(** A collection made with a context that is already cancelled ([who] = 3, 4, 5; [normalize] turns
+    it into an ordinary collection when no callback is registered, because the code then never looks
+    at the context) returns an error and no data, and consumes nothing: the theorems above are stated
+    over cycles that simply skip it - measurements made before it belong to the reader's next
+    successful collection, the delta interval is not cut (no trace entry, no clock tick), cumulative
+    = running delta totals at the next common collection.  This holds with no guard for synchronous
+    instruments.  For asynchronous ones it needs [calm]: finding F-C08-1 - the first registered
+    callback runs before the context is looked at and its observations leak into the reader's next
+    cycle ([cycles_async_leaky] is what the code does, exactly: the model equals it, below). *)
+Theorem c08_cancelled_collect_refuted :
+  exists x i h, class_of x = CAsyncSum /\
+    ~ AsyncDelta (cycles_async true i (normalize h []) []) (map s_points (stream x i Delta 0%N (fun n => N.of_nat (S n)) h)).
+Proof. exact async_exact_refuted. Qed.
+Print Assumptions c08_cancelled_collect_refuted.
+
+(** what asynchronous streams show in general (no guard): the leaky cycles *)
+Theorem c08_async_leaky_exact : forall x i h t0 t0' tm tm',
+  class_of x = CAsyncSum ->
+  AsyncDelta (cycles_async_leaky true i (normalize h []) [] []) (map s_points (stream x i Delta t0 tm h)) /\
+  AsyncCum (cycles_async_leaky false i (normalize h []) [] []) (map s_points (stream x i Cumulative t0' tm' h)).
+Proof.
+  intros x i h t0 t0' tm tm' Hx. assert (Ha : is_async x = true) by (destruct x; try discriminate; reflexivity).
+  pose proof (async_delta x i t0 tm h Hx) as H1. pose proof (async_cum x i t0' tm' h Hx) as H2.
+  unfold cycles in H1, H2. rewrite Ha in H1, H2. now split.
+Qed.
+Print Assumptions c08_async_leaky_exact.
+
 (** The decidable check that the correspondence run evaluates on the implementation's traces
     implies the Prop reading of the clause of the stream's class (for any traces whatsoever). *)
-Theorem c08_checker_sound : forall cl i h dtr ctr, stream_ok cl i h dtr ctr = true ->
+Theorem c08_checker_sound : forall cl i h0 dtr ctr, stream_ok false cl i h0 dtr ctr = true ->
+  let h := normalize h0 [] in
   match cl with
   | CSyncAdd => RunningDelta (sync_points h 0 0) (map s_points dtr) (map s_points ctr)
   | CSyncGauge => GaugeCycle (cycles_sync true i h []) (map s_points dtr) /\ GaugeSoFar (cycles_sync false i h []) (map s_points ctr)
